@@ -41,6 +41,10 @@ pub struct Program {
     /// fail for other clients because of it
     #[serde(default)]
     pub disk_error: bool,
+    /// the attacker's session works on an arbiter database of its own on which an arbiter is registered and the key
+    /// `k` already waits for a resolution (the conflict queue paths)
+    #[serde(default)]
+    pub arbiter_db: bool,
 }
 
 pub const WORDS: [&str; 46] = [
@@ -104,7 +108,7 @@ fn gen_concurrent_admins(rng: &mut Rng) -> Program {
     let pick = |rng: &mut Rng| LINES[rng.below(LINES.len() as u64) as usize].to_string();
     let lines: Vec<String> = (0..n).map(|_| pick(rng)).collect();
     let companion: Vec<String> = (0..n).map(|_| pick(rng)).collect();
-    Program { via: Via::Tcp, admin: true, select_db: true, lines, raw_hex: vec![], repeat: 1, companion, ticks: rng.chance(1, 3), disk_error: false }
+    Program { via: Via::Tcp, admin: true, select_db: true, lines, raw_hex: vec![], repeat: 1, companion, ticks: rng.chance(1, 3), disk_error: false, arbiter_db: false }
 }
 
 fn gen(rng: &mut Rng) -> Program {
@@ -133,7 +137,8 @@ fn gen(rng: &mut Rng) -> Program {
         lines.push(["snapshot false q", "snapshot true q r", "replicate-snapshot q", "snapshot false"][rng.below(4) as usize].to_string());
     }
     let admin = if disk_error { true } else { rng.chance(1, 2) };
-    Program { via, admin, select_db: rng.chance(2, 3), lines, raw_hex, repeat, companion, ticks, disk_error }
+    let arbiter_db = !disk_error && rng.chance(1, 4);
+    Program { via, admin, select_db: rng.chance(2, 3), lines, raw_hex, repeat, companion, ticks, disk_error, arbiter_db }
 }
 
 struct Outcome {
@@ -201,6 +206,18 @@ fn execute(prog: Program) -> Outcome {
         admin.exec("create-db r tokr none");
         admin.disconnect();
     }
+    // (kept open for the whole run: the registered arbiter of the attacker's arbiter database)
+    let mut _arbiter: Option<Session> = None;
+    if prog.arbiter_db {
+        let mut a = Session::admin(&dbs);
+        a.exec("create-db z tokz arbiter");
+        a.exec("use-db z tokz");
+        a.exec("arbiter");
+        a.exec("set-safe k 0 a");
+        a.exec("set-safe k 0 b");
+        a.exec("set n 5");
+        _arbiter = Some(a);
+    }
     let (tcp, ws, http) = (w.nodes[0].tcp.clone(), w.nodes[0].ws.clone(), w.nodes[0].http.clone());
     wait_cond(1_000, 1, || with(|k| k.net.lookup(&ws).is_some() && k.net.lookup(&http).is_some()));
     if probe(&tcp, 0).is_err() {
@@ -212,7 +229,7 @@ fn execute(prog: Program) -> Outcome {
         prelude.push(format!("auth {} {}", USER, PWD));
     }
     if prog.select_db {
-        prelude.push("use-db q tokq".to_string());
+        prelude.push(if prog.arbiter_db { "use-db z tokz" } else { "use-db q tokq" }.to_string());
     }
     let mut seen_panics = 0usize;
     let mut disk_error_armed = false;
@@ -405,6 +422,9 @@ impl Property for C10 {
             None if scenario == "concurrent-admins" => gen_concurrent_admins(&mut rng),
             None => gen(&mut rng),
         };
+        if std::env::var("NUNSIM_ECHO_PROGRAM").is_ok() {
+            eprintln!("program: {}", serde_json::to_string(&prog).unwrap_or_default().chars().take(400000).collect::<String>());
+        }
         let mut cfg = SimConfig::new(ctx.seed ^ 0xc10);
         cfg.policy = policy_for(Rng::new(ctx.seed ^ 0x9011c7).next_u64());
         cfg.trace = ctx.trace;
